@@ -45,7 +45,9 @@ def trim_trivial_operator(qu_op: QubitOperator, trim_states: Dict[int, int],
         term = pauli_of_to_string(op, n_qubits)
         c = np.ones(len(trim_states))
         new_term = term
-        for i, qubit in enumerate(trim_states.keys()):
+        # Qubits are visited in increasing index order (the position arithmetic below relies on it), whatever the
+        # order of the entries in trim_states.
+        for i, qubit in enumerate(sorted(trim_states)):
             if term[qubit] in {'X', 'Y'}:
                 c[i] = 0
                 break
